@@ -178,8 +178,63 @@ def _affine_in(p: Poly, a: str, b: str):
   return ca, cb, rest
 
 
-def _cmp_in_region(x: Poly, y: Poly, a: str, b: str, region) -> int | None:
-  """sign of (x - y) in the region, or None if not decided."""
+# Facts about single variables (set by equal_everywhere_nonneg while it works
+# through its cases): name -> lower bound (the variable is an integer >= bound).
+_LOWER: dict[str, int] = {}
+
+
+def _sign_by_bounds(d: Poly) -> str | None:
+  """'+', '-', '0+' (>= 0), '0-' (<= 0) for d = c*v + k0 with v >= _LOWER[v]; else None."""
+  if d.is_const():
+    v = d.const_value()
+    return '+' if v > 0 else '-' if v < 0 else '0+'
+  vs = vars_of(d)
+  if len(vs) != 1 or has_atom(d, 'min') or has_atom(d, 'lt') or has_atom(d, 'br'):
+    return None
+  v = next(iter(vs))
+  if v not in _LOWER:
+    return None
+  c = k0 = Fraction(0)
+  for m, co in d.t.items():
+    if m == ((('var', v), 1),):
+      c += co
+    elif m == ():
+      k0 += co
+    else:
+      return None
+  lo = c * _LOWER[v] + k0          # value at the lower bound
+  if c > 0:
+    return '+' if lo > 0 else '0+' if lo == 0 else None
+  if c < 0:
+    return '-' if lo < 0 else '0-' if lo == 0 else None
+  return None
+
+
+def _cmp_in_region(x: Poly, y: Poly, a: str, b: str, region, weak: bool = False) -> int | None:
+  """sign of (x - y) in the region, or None if not decided.
+
+  With `weak`, a difference known to be >= 0 (<= 0) counts as 1 (-1): enough
+  to pick a minimum, not enough for a strict comparison.
+  """
+  r0 = _cmp_in_region0(x, y, a, b, region)
+  if r0 is not None or not _LOWER:
+    return r0
+  d = x - y
+  if region[0] == 'eq' and b in vars_of(d):
+    d = subst(d, {b: V(a) + K(region[1])})
+  sg = _sign_by_bounds(d)
+  if sg == '+':
+    return 1
+  if sg == '-':
+    return -1
+  if weak and sg == '0+':
+    return 1
+  if weak and sg == '0-':
+    return -1
+  return None
+
+
+def _cmp_in_region0(x: Poly, y: Poly, a: str, b: str, region) -> int | None:
   d = x - y
   if has_atom(d, 'min') or has_atom(d, 'lt') or has_atom(d, 'br'):
     return None
@@ -223,7 +278,7 @@ def eval_region(p: Poly, a: str, b: str, region) -> Poly:
           args = [eval_region(_KEY2POLY[k], a, b, region) for k in at[1]]
           best = args[0]
           for x in args[1:]:
-            s = _cmp_in_region(x, best, a, b, region)
+            s = _cmp_in_region(x, best, a, b, region, weak=True)
             if s is None:
               raise AffUnsupported(
                   f'cannot order {x!r} and {best!r} in region {region}')
@@ -234,6 +289,13 @@ def eval_region(p: Poly, a: str, b: str, region) -> Poly:
           x = eval_region(_KEY2POLY[at[1]], a, b, region)
           y = eval_region(_KEY2POLY[at[2]], a, b, region)
           s = _cmp_in_region(x, y, a, b, region)
+          if s is None and _LOWER:
+            # x - y >= 0 is enough to know that [x < y] is 0
+            dd = x - y
+            if region[0] == 'eq' and b in vars_of(dd):
+              dd = subst(dd, {b: V(a) + K(region[1])})
+            if _sign_by_bounds(dd) == '0+':
+              s = 1
           if s is None:
             raise AffUnsupported(
                 f'cannot decide [{x!r} < {y!r}] in region {region}')
@@ -273,6 +335,39 @@ def equal_everywhere(x: Poly, y: Poly, a: str, b: str, allowed=None,
   return None
 
 
+def equal_everywhere_nonneg(x: Poly, y: Poly, a: str, b: str):
+  """equal_everywhere for non-negative integers a, b, additionally split on b == 0 / b >= 1.
+
+  Needed when a term tests b against a constant (truthiness of a remainder):
+  the (a, b) regions only order a and b relative to each other.  Returns None
+  or (case, region, ex, ey).
+  """
+  global _LOWER
+  # terms that only order a and b relative to each other are decided by the
+  # plain enumeration; the split is for terms that test b (or a) against a constant
+  try:
+    bad = equal_everywhere(x, y, a, b)
+    return None if bad is None else ('any remainder',) + tuple(bad)
+  except AffUnsupported:
+    pass
+  saved = dict(_LOWER)
+  try:
+    # case b == 0 (a >= 0)
+    _LOWER = {a: 0}
+    x0, y0 = subst(x, {b: K(0)}), subst(y, {b: K(0)})
+    bad = equal_everywhere(x0, y0, a, b, allowed=lambda rg: rg == ('eq', 0))
+    if bad is not None:
+      return (f'{b} == 0',) + tuple(bad)
+    # case b >= 1 (a >= 0)
+    _LOWER = {a: 0, b: 1}
+    bad = equal_everywhere(x, y, a, b)
+    if bad is not None:
+      return (f'{b} >= 1',) + tuple(bad)
+    return None
+  finally:
+    _LOWER = saved
+
+
 # ---------------------------------------------------------------------------
 # A small evaluator for integer expressions / accelerated loops
 
@@ -282,6 +377,7 @@ class AffEval:
   def __init__(self, names: dict[str, Poly], loop_var: str | None = None):
     self.env = dict(names)
     self.loop_var = loop_var
+    self.used_truthiness = False
 
   def expr(self, e: ast.AST) -> Poly:
     if isinstance(e, ast.Constant) and isinstance(e.value, int) and not isinstance(
@@ -361,6 +457,15 @@ class AffEval:
           return LT(b, a)
         if isinstance(op, ast.GtE):
           return LT(b, a + K(1))
+    # truthiness of a NON-NEGATIVE integer expression (a remainder, a length):
+    # `x` is [0 < x]; `not x` its complement; x != 0 / x > 0 / x == 0 likewise
+    neg = False
+    while isinstance(t, ast.UnaryOp) and isinstance(t.op, ast.Not):
+      t, neg = t.operand, not neg
+    if isinstance(t, (ast.Name, ast.Attribute, ast.BinOp)):
+      self.used_truthiness = True
+      g = LT(K(0), self.expr(t))
+      return K(1) - g if neg else g
     raise AffUnsupported(f'guard {unparse(t)}')
 
   def assign(self, tgt: ast.AST, val: ast.AST):
